@@ -14,8 +14,10 @@ import (
 func HDecodeDecryptArbitrary() {
 	suite, role, keyed, hdrMode, n, family := vr.Param(0), vr.Param(1), vr.Param(2), vr.Param(3), vr.Param(4), vr.Param(5)
 	var k *security.IKESAKey
+	var km *VKeyMaterial
 	if keyed == 1 {
-		k = VNewKey(VGenKeyMaterial(suite))
+		km = VGenKeyMaterial(suite)
+		k = VNewKey(km)
 	}
 	b := vr.Input(n)
 	if family == 1 {
@@ -24,6 +26,18 @@ func HDecodeDecryptArbitrary() {
 		}
 		vr.Assume(int(b[30])<<8|int(b[31]) == n-28)
 		vr.Assume(b[16] == uint8(message.TypeSK))
+	}
+	if vr.Native() && keyed == 1 {
+		// replay: the counterexample fixes what the uninterpreted MAC and block decryption return; build the
+		// datagram that really carries a valid checksum and really decrypts to the model's plaintext
+		icv := VIntegOutLen[suite%3]
+		if p := vr.ModelPlaintext(0); p != nil && n >= 48+16+icv && len(p) == n-48-icv {
+			ke, ka := vSenderKeys(km, 1-role)
+			f := append([]byte{}, b[:48]...)
+			f = append(f, vSpecCBCEncrypt(ke, b[32:48], p)...)
+			f = append(f, VSpecICV(suite, ka, f)...)
+			b = f
+		}
 	}
 	var h *message.IKEHeader
 	if hdrMode == 1 {
